@@ -702,7 +702,7 @@ fn monitor_b(ctx: &mut Ctx) -> (u64, u64) {
 
 /// Pairs of different kinds / different resources issued in the same interval: both are applied.
 fn monitor_pairs(ctx: &mut Ctx) {
-	let n = ctx.t(60u64, 600u64);
+	let n = ctx.t(240u64, 4800u64);
 	for i in 0..n {
 		if !ctx.owns("pair", i) {
 			continue;
@@ -729,6 +729,119 @@ fn monitor_pairs(ctx: &mut Ctx) {
 			let (l, rr) = (out[out.len() - 2], out[out.len() - 1]);
 			if (l - want_l).abs() > 1e-5 || (rr - want_r).abs() > 1e-5 {
 				return Err(format!("commands to different resources issued in the same interval interfered: left {} (want {}), right {} (want {})", l, want_l, rr, want_r));
+			}
+			drop((a, b));
+			// ---- commands of different kinds to ONE clock in the same interval: the last start/pause wins, a stop resets the time
+			{
+				let mut rig = base_rig(MainTrackBuilder::new());
+				rig.watch_alloc = false;
+				let mut c = rig.mgr.add_clock(ClockSpeed::TicksPerSecond(100.0)).map_err(|_| "clock")?;
+				let warm = r.chance(0.7);
+				if warm {
+					c.start();
+					rig.callback(64 * r.usize_in(1, 20));
+				}
+				let seq: Vec<u64> = (0..r.usize_in(2, 4)).map(|_| r.below(3)).collect();
+				let mut want_ticking = warm;
+				let mut reset = false;
+				let mut names = vec![];
+				for k in &seq {
+					match k {
+						0 => {
+							c.start();
+							want_ticking = true;
+							names.push("start");
+						}
+						1 => {
+							c.pause();
+							want_ticking = false;
+							names.push("pause");
+						}
+						_ => {
+							c.stop();
+							want_ticking = false;
+							reset = true;
+							names.push("stop");
+						}
+					}
+				}
+				rig.callback(64);
+				rig.sync();
+				let t1 = c.time();
+				let t1v = t1.ticks as f64 + t1.fraction;
+				rig.callback(640);
+				rig.sync();
+				let t2 = c.time();
+				let t2v = t2.ticks as f64 + t2.fraction;
+				if c.ticking() != want_ticking {
+					return Err(format!("clock commands [{}] issued between two callbacks (clock {}): ticking() = {} afterwards, the last start/pause/stop says {}", names.join(", "), if warm { "running" } else { "never started" }, c.ticking(), want_ticking));
+				}
+				let advanced = t2v > t1v;
+				if advanced != want_ticking {
+					return Err(format!("clock commands [{}] issued between two callbacks: the clock {} afterwards (time {} -> {})", names.join(", "), if advanced { "advances" } else { "stands still" }, t1v, t2v));
+				}
+				if reset && t1v > 0.81 {
+					return Err(format!("clock commands [{}] included a stop but the time was not reset: {} after one 64-frame callback", names.join(", "), t1v));
+				}
+			}
+			// ---- a command written between play() and the sound's first callback is in effect in that callback, wherever it plays
+			{
+				let mut rig = base_rig(MainTrackBuilder::new());
+				rig.watch_alloc = false;
+				let l = rig.mgr.add_listener(Vec3::ZERO, Quat::IDENTITY).map_err(|_| "listener")?;
+				let place = r.below(5);
+				let existing = r.chance(0.5);
+				let mut plain: Option<TrackHandle> = None;
+				let mut spatial: Option<SpatialTrackHandle> = None;
+				let mut parent: Option<TrackHandle> = None;
+				match place {
+					1 => plain = Some(rig.mgr.add_sub_track(TrackBuilder::new()).map_err(|_| "t")?),
+					2 => spatial = Some(rig.mgr.add_spatial_sub_track(l.id(), Vec3::ZERO, SpatialTrackBuilder::new().attenuation_function(None::<Easing>).spatialization_strength(0.0)).map_err(|_| "t")?),
+					3 => {
+						let mut p = rig.mgr.add_sub_track(TrackBuilder::new()).map_err(|_| "p")?;
+						plain = Some(p.add_sub_track(TrackBuilder::new()).map_err(|_| "t")?);
+						parent = Some(p);
+					}
+					_ => {}
+				}
+				if existing {
+					rig.callback(64);
+				}
+				let data = crate::probes::dc_sound(SR, 64, 0.1).loop_region(..);
+				let mut h = match (plain.as_mut(), spatial.as_mut()) {
+					(Some(t), _) => t.play(data),
+					(_, Some(t)) => t.play(data),
+					_ => rig.mgr.play(data),
+				}
+				.map_err(|_| "play")?;
+				let v = r.f32_in(-30.0, -6.0);
+				h.set_volume(Decibels(v), inst());
+				let out = rig.callback(64).to_vec();
+				let got = out[out.len() - 2];
+				let want = 0.1 * Decibels(v).as_amplitude();
+				if (got - want).abs() > 1e-5 {
+					return Err(format!("set_volume({} dB) written between play() and the sound's first callback on {} ({} track): the last frame of that callback is {} (unchanged volume gives 0.1), expected {}", v, ["the main track", "a sub-track", "a spatial track", "a nested sub-track", "the main track"][place as usize], if existing { "already running" } else { "new" }, got, want));
+				}
+				drop(parent);
+			}
+			// ---- a send-route volume command is in effect in the first internal chunk of the next callback
+			{
+				let mut rig = base_rig(MainTrackBuilder::new());
+				rig.watch_alloc = false;
+				let send = rig.mgr.add_send_track(SendTrackBuilder::new()).map_err(|_| "send")?;
+				let mut t = rig.mgr.add_sub_track(TrackBuilder::new().with_send(&send, Decibels::IDENTITY)).map_err(|_| "t")?;
+				let _s = t.play(crate::probes::dc_sound(SR, 64, 0.1).loop_region(..)).map_err(|_| "play")?;
+				rig.callback(256);
+				let b = rig.callback(64).to_vec();
+				let base = b[b.len() - 2] / 2.0; // direct path + send path at 0 dB
+				let v = r.f32_in(-30.0, -6.0);
+				t.set_send(send.id(), Decibels(v), inst()).map_err(|_| "set_send")?;
+				let o = rig.callback(64).to_vec();
+				let got = o[o.len() - 2];
+				let want = base * (1.0 + Decibels(v).as_amplitude());
+				if (got - want).abs() > 1e-5 {
+					return Err(format!("set_send({} dB): after one internal buffer the output is {} (direct path {} + send path), expected {}: the route volume is applied late", v, got, base, want));
+				}
 			}
 			Ok(())
 		});
